@@ -7,7 +7,7 @@ package mp4
 // Every registered decoder is entered with a header produced by DecodeHeader[SR] and, except for mdat, with the payload
 // inside the reader; this is established by DecodeBoxSR / DecodeBox (obligation at the registry call) and assumed by each decoder.
 
-//@ pred hdrOK(hdr BoxHeader) = (hdr.Hdrlen == 8 || hdr.Hdrlen == 16) && hdr.Size >= uint64(hdr.Hdrlen) && len(hdr.Name) == 4
+//@ pred hdrOK(hdr BoxHeader) = (hdr.Hdrlen == 8 || hdr.Hdrlen == 16) && hdr.Size >= uint64(hdr.Hdrlen) && len(hdr.Name) == 4 && (hdr.Hdrlen == 8 ==> hdr.Size < 1<<32)
 //@ pred fitsSR(hdr BoxHeader, sr bits.SliceReader) = hdr.Size - uint64(hdr.Hdrlen) <= uint64(sr.(*bits.FixedSliceReader).len - sr.(*bits.FixedSliceReader).pos)
 
 // mdat is the only box allowed to extend beyond the available bytes (DecodeBoxSR); the registry maps "mdat" to DecodeMdatSR only
@@ -104,7 +104,7 @@ package mp4
 // bytes. Size() in the contract is the box's own Size method: inlined when the dynamic type is known, otherwise the abstract
 // pure method AM!Size(box, epoch). Nothing but the writer is assigned, so Size() is the same before and after.
 
-//@ absmethod Size GetChildren Type
+//@ absmethod Size GetChildren Type SizeSize
 
 //@ spec rec sizeSum(bs []Box, n int) uint64 = ite(n <= 0, uint64(0), sizeSum(bs, n-1) + bs[n-1].Size())
 
